@@ -160,6 +160,9 @@ def main():
                 exhaustive=ctx.exhaustive,
                 notes=ctx.notes,
                 known_findings_reported=sorted(seen_known),
+                partial=bool(meta.get("partial", False)),
+                claim=meta.get("level_text", ""),
+                claim_note=meta.get("level_note", ""),
             ),
             assumptions=meta.get("assumptions", []) + ctx.assumptions,
             wall_s=round(wall, 2),
